@@ -25,6 +25,9 @@ pub struct Case16 {
     pub opening: Vec<(String, String)>,
     /// which optional columns the layout uses (statistics)
     pub optional: Vec<String>,
+    /// how negative cells were written (statistics)
+    #[serde(default)]
+    pub shapes: Vec<String>,
 }
 
 // ---------------------------------------------------------------- the csv / chrono oracles
@@ -132,8 +135,11 @@ const DATE_FORMATS: [&str; 4] = ["%Y-%m-%d", "%Y/%m/%d", "%d.%m.%Y", "%m/%d/%Y"]
 enum NumStyle {
     Plain,
     Grouped,
+    /// "$" in front of the number
     Prefix,
     Suffix,
+    /// the commodity code in front of the number: "USD 5", "USD5"
+    CodePrefix,
 }
 
 fn group3(int: &str) -> String {
@@ -148,27 +154,72 @@ fn group3(int: &str) -> String {
     o
 }
 
+fn grouped_text(a: &str) -> String {
+    let (i, f) = match a.split_once('.') {
+        Some((i, f)) => (i.to_string(), Some(f.to_string())),
+        None => (a.to_string(), None),
+    };
+    match f {
+        Some(f) => format!("{}.{}", group3(&i), f),
+        None => group3(&i),
+    }
+}
+
 /// text of a decimal in the statement's style (v >= 0 or with a leading minus)
 fn num_text(v: &Decimal, style: NumStyle, comm: &str) -> String {
     let neg = v.is_sign_negative() && !v.is_zero();
     let a = v.abs().to_string();
     let body = match style {
-        NumStyle::Grouped => {
-            let (i, f) = match a.split_once('.') {
-                Some((i, f)) => (i.to_string(), Some(f.to_string())),
-                None => (a.clone(), None),
-            };
-            match f {
-                Some(f) => format!("{}.{}", group3(&i), f),
-                None => group3(&i),
-            }
-        }
+        NumStyle::Grouped => grouped_text(&a),
         _ => a,
     };
     match style {
         NumStyle::Prefix => format!("{}${}", if neg { "-" } else { "" }, body),
+        NumStyle::CodePrefix => format!("{}{} {}", if neg { "-" } else { "" }, if comm.is_empty() { "$" } else { comm }, body),
         NumStyle::Suffix => format!("{}{} {}", if neg { "-" } else { "" }, body, comm),
         _ => format!("{}{}", if neg { "-" } else { "" }, body),
+    }
+}
+
+/// One amount / credit / debit / balance / charge / secondary-amount cell.  Under the prefix styles
+/// the minus sign is written before the prefix ("-$1.46", "-USD 5") or after it ("$-1,950.25",
+/// "USD -5", "USD-5"), with or without grouping commas; `stats` counts the negative shapes written.
+fn cell_text(r: &mut Rng, v: &Decimal, style: NumStyle, comm: &str, shapes: &mut Vec<&'static str>) -> String {
+    let neg = v.is_sign_negative() && !v.is_zero();
+    match style {
+        NumStyle::Prefix | NumStyle::CodePrefix => {
+            let a = v.abs().to_string();
+            let body = if r.chance(1, 2) { grouped_text(&a) } else { a };
+            let sym = if style == NumStyle::Prefix || comm.is_empty() { "$".to_string() } else { comm.to_string() };
+            let sp = if style == NumStyle::CodePrefix && r.chance(3, 4) { " " } else { "" };
+            if !neg {
+                return format!("{}{}{}", sym, sp, body);
+            }
+            if r.chance(1, 2) {
+                shapes.push(if style == NumStyle::Prefix { "negative_cell:-$n" } else { "negative_cell:-CCY n" });
+                format!("-{}{}{}", sym, sp, body)
+            } else {
+                shapes.push(if style == NumStyle::Prefix { "negative_cell:$-n" } else { "negative_cell:CCY -n" });
+                format!("{}{}-{}", sym, sp, body)
+            }
+        }
+        _ => {
+            if neg {
+                shapes.push("negative_cell:plain_or_suffix");
+            }
+            num_text(v, style, comm)
+        }
+    }
+}
+
+/// a secondary-amount cell: statements write it unsigned or with the sign of the row
+fn sec_text(r: &mut Rng, v: &Decimal, style: NumStyle, sec_comm: &str, row_negative: bool, shapes: &mut Vec<&'static str>) -> String {
+    match style {
+        NumStyle::Prefix | NumStyle::CodePrefix => {
+            let signed = if row_negative && r.chance(1, 2) { -*v } else { *v };
+            cell_text(r, &signed, style, sec_comm, shapes)
+        }
+        _ => num_text(v, NumStyle::Plain, ""),
     }
 }
 
@@ -277,12 +328,14 @@ pub fn gen_case(r: &mut Rng) -> Case16 {
     let delim_ch = delimiter.chars().next().unwrap_or(',');
     let skip = *r.pick(&[0i32, 0, 1, 2]);
     let new_to_old = r.chance(2, 5);
-    let style = match r.below(6) {
+    let style = match r.below(8) {
         0 => NumStyle::Grouped,
-        1 => NumStyle::Prefix,
-        2 => NumStyle::Suffix,
+        1 | 2 => NumStyle::Prefix,
+        3 => NumStyle::Suffix,
+        4 => NumStyle::CodePrefix,
         _ => NumStyle::Plain,
     };
+    let mut shapes: Vec<&'static str> = Vec::new();
     let default_conv = if conv_cols && r.chance(1, 2) { Some(Conv { disabled: false, commodity: if r.chance(1, 3) { Some("EUR".into()) } else { None }, ..gen_conv(r) }) } else { None };
     let eff_default = default_conv.clone().unwrap_or_else(Conv::default_conv);
     // rules: destinations, pending flags, and (in the non-simple statements) conversions
@@ -336,7 +389,10 @@ pub fn gen_case(r: &mut Rng) -> Case16 {
         let mut charge = Decimal::ZERO;
         if has_charge && r.chance(1, 2) {
             charge = Decimal::new(r.below(500) as i64, 2);
-            charge_t = if r.chance(1, 8) { "0".into() } else { num_text(&charge, style, &comm) };
+            if r.chance(1, 6) {
+                charge = -charge; // a refunded fee
+            }
+            charge_t = if r.chance(1, 8) { "0".into() } else { cell_text(r, &charge, style, &comm, &mut shapes) };
             if charge_t == "0" {
                 charge = Decimal::ZERO;
             }
@@ -352,7 +408,7 @@ pub fn gen_case(r: &mut Rng) -> Case16 {
                     // 1 commodity = rate secondary: amount * rate = sec
                     let a = Decimal::new(1 + r.below(20000) as i64, 2);
                     amount = a;
-                    sec_amt_t = num_text(&(a * rate), NumStyle::Plain, "");
+                    sec_amt_t = sec_text(r, &(a * rate), style, &sec_comm_t, negative, &mut shapes);
                 } else {
                     // 1 secondary = rate commodity: sec * rate (+/- charge) = amount
                     let base = sec * rate;
@@ -360,20 +416,23 @@ pub fn gen_case(r: &mut Rng) -> Case16 {
                     if amount.is_sign_negative() {
                         amount = base;
                     }
-                    sec_amt_t = num_text(&sec, NumStyle::Plain, "");
+                    sec_amt_t = sec_text(r, &sec, style, &sec_comm_t, negative, &mut shapes);
                 }
             } else if r.chance(2, 3) {
-                sec_amt_t = num_text(&sec, NumStyle::Plain, "");
+                sec_amt_t = sec_text(r, &sec, style, &sec_comm_t, negative, &mut shapes);
             }
         }
         let signed = if negative { -amount } else { amount };
         // the statement's balance moves by the signed amount
         let nb = balances[&comm] + signed;
         balances.insert(comm.clone(), nb);
-        let mut bal_t = if r.chance(4, 5) { num_text(&nb, style, &comm) } else { String::new() };
+        let mut bal_t = if r.chance(4, 5) { cell_text(r, &nb, style, &comm, &mut shapes) } else { String::new() };
         if wrong_balance_at == Some(i) && !bal_t.is_empty() {
-            bal_t = num_text(&(nb + Decimal::new(1, 2)), style, &comm);
+            bal_t = cell_text(r, &(nb + Decimal::new(1, 2)), style, &comm, &mut shapes);
         }
+        // credit / debit columns: now and then the movement is written as a negative number in the
+        // other column (a reversal): credit "-5" books -5, debit "-5" books +5
+        let reversal = credit_debit && !amount.is_zero() && r.chance(1, 8);
         let payee = gen_payee_text(r);
         let cat = if r.chance(3, 4) { r.pick(&CATEGORIES).to_string() } else { String::new() };
         let note = match r.below(5) {
@@ -402,14 +461,28 @@ pub fn gen_case(r: &mut Rng) -> Case16 {
                         if amount.is_zero() && r.chance(1, 3) {
                             if r.chance(1, 2) { String::new() } else { "-0.00".into() }
                         } else {
-                            num_text(&signed, style, &comm)
+                            cell_text(r, &signed, style, &comm, &mut shapes)
                         }
                     }
                     K_CREDIT => {
-                        if negative { String::new() } else { num_text(&amount, style, &comm) }
+                        if reversal {
+                            if negative { cell_text(r, &signed, style, &comm, &mut shapes) } else { String::new() }
+                        } else if negative {
+                            String::new()
+                        } else {
+                            cell_text(r, &amount, style, &comm, &mut shapes)
+                        }
                     }
                     K_DEBIT => {
-                        if negative { num_text(&amount, style, &comm) } else if r.chance(1, 6) { "0".into() } else { String::new() }
+                        if reversal {
+                            if negative { String::new() } else { cell_text(r, &(-amount), style, &comm, &mut shapes) }
+                        } else if negative {
+                            cell_text(r, &amount, style, &comm, &mut shapes)
+                        } else if r.chance(1, 6) {
+                            "0".into()
+                        } else {
+                            String::new()
+                        }
                     }
                     K_BALANCE => bal_t.clone(),
                     K_COMMODITY => comm.clone(),
@@ -453,7 +526,7 @@ pub fn gen_case(r: &mut Rng) -> Case16 {
     if payee_template {
         optional_names.push("payee_template".into());
     }
-    Case16 { doc, path: "data/okane/2021.csv".into(), csv, date_col: col_of(K_DATE).unwrap(), opening, optional: optional_names }
+    Case16 { doc, path: "data/okane/2021.csv".into(), csv, date_col: col_of(K_DATE).unwrap(), opening, optional: optional_names, shapes: shapes.iter().map(|s| s.to_string()).collect() }
 }
 
 // ---------------------------------------------------------------- emit
@@ -517,6 +590,9 @@ pub fn emit(sh: &mut Shards, st: &mut Stats, c: &Case16, tag: &str) {
     st.count(&format!("date_format:{}", fmt.date));
     for o in &c.optional {
         st.count(&format!("column:{}", o));
+    }
+    for sh in &c.shapes {
+        st.count(sh);
     }
     for (_, p) in &fmt.fields {
         st.count(match p {
@@ -590,7 +666,7 @@ fn corpus_cases(o: &Opts) -> (Vec<Case16>, bool) {
 pub fn run(o: &Opts) {
     let mut st = Stats::new();
     let mut sh = Shards::new(&o.out, if o.thorough { o.shards * 6 } else { o.shards }, &format!("{} Run.Classify_C16.\nImport ListNotations.\nOpen Scope N_scope.", crate::c17::HEADER));
-    st.rule = "CSV statements generated from 1-8 chronological rows with a running balance per commodity, written under a random layout (columns shuffled with junk columns; fields by index / label / template; delimiter default , ; tab; 0-2 skipped head lines; four date formats; amount or credit/debit columns; optional category, note, balance, commodity, rate, secondary amount, secondary commodity, charge columns; plain / grouped / currency-prefixed / commodity-suffixed numbers) x asset/liability x both row orders, with 0-4 rewrite rules; through load_from_yaml, select, import::import(Csv), to_double_entry, the printing of ImportCmd and report::process over funding + printed text; non-trivial = import succeeded, some amount is non-zero and at least one optional column is used; distinct by YAML + CSV".into();
+    st.rule = "CSV statements generated from 1-8 chronological rows with a running balance per commodity, written under a random layout (columns shuffled with junk columns; fields by index / label / template; delimiter default , ; tab; 0-2 skipped head lines; four date formats; amount or credit/debit columns; optional category, note, balance, commodity, rate, secondary amount, secondary commodity, charge columns; plain / grouped / `$`-prefixed / commodity-code-prefixed / commodity-suffixed numbers; under the prefixed styles amount, credit, debit, balance, charge and secondary-amount cells carry the minus sign before the prefix (-$1.46, -USD 5) or after it ($-1,950.25, USD -5, USD-5), with or without grouping commas; occasional reversals written as a negative credit / debit and refunded (negative) charges) x asset/liability x both row orders, with 0-4 rewrite rules; through load_from_yaml, select, import::import(Csv), to_double_entry, the printing of ImportCmd and report::process over funding + printed text; non-trivial = import succeeded, some amount is non-zero and at least one optional column is used; distinct by YAML + CSV".into();
     st.assumptions.push("numbers have at most 9 significant digits and scale <= 4; rates come from a pool of products of powers of 2 and 5 so that Decimal division is exact".into());
     st.assumptions.push("the csv crate's tokenisation (after skip.head, with the configured delimiter) and chrono's date parsing are oracles: the model receives the records and the day numbers they produce".into());
     st.assumptions.push("white space in note fields is ASCII".into());
